@@ -447,7 +447,10 @@ class Models(object):
             return x
         if isinstance(x, Obj):
             return Arr((), [x], kind='O')
-        return asarr(x)
+        a = asarr(x)
+        if a.kind is None and a.size and all(isinstance(v, int) and not isinstance(v, bool) for v in a.items()):
+            a.kind = 'i'        # integer dtype (matters for *_like constructors, which inherit it)
+        return a
     np_asanyarray = np_asarray
     np_ascontiguousarray = np_asarray
 
@@ -549,8 +552,14 @@ class Models(object):
     def np_empty_like(self, x, dtype=None, **kw):
         return self._filled(shape_of(x), UNINIT)
 
-    def np_full_like(self, x, fill_value, **kw):
-        return self._filled(shape_of(x), fill_value)
+    def np_full_like(self, x, fill_value, dtype=None, **kw):
+        kind = _kind_of_dtype(dtype) if dtype is not None else (x.kind if isinstance(x, Arr) and x.kind else 'f')
+        if kind == 'i' and not isinstance(fill_value, Arr):
+            c = ndarr.concrete_real(fill_value)
+            if c is None:
+                raise AnalysisError('np.full_like of an integer array with a symbolic fill value (cast not modelled)')
+            fill_value = int(c)         # the fill value is cast to the integer dtype of x
+        return self._filled(shape_of(x), fill_value, kind)
 
     def np_arange(self, *args, **kw):
         vals = [_conc_int(a) for a in args]
